@@ -1034,3 +1034,61 @@ def bundle_rules(prop):
 
     rule.__doc__ = "shared with C03 (routing rules), restricted to %s" % ", ".join(files)
     return [(prop + ".BUNDLE", 5, rule)]
+
+
+# ------------------------------------------------------------------ HELPERDEFAULTS
+# defaults of shared helpers that callers rely on *by omission* (reviewed; the value is part of the published behaviour:
+# a docstring edited together with the signature does not make a new default right)
+HELPER_DEFAULTS = [
+    ("util.index_labels", "case_sensitive", False, "labels are compared case-insensitively by every labelling metric"),
+    ("util.intervals_to_boundaries", "q", 5, "boundaries are rounded to 5 decimals before duplicates are removed"),
+    ("tempo.validate_tempi", "reference", True, "the tempo loader validates its pair as a reference (at least one positive tempo)"),
+    ("melody.to_cent_voicing", "base_frequency", 10.0, "cents are measured from 10 Hz, below every admissible pitch, so 0 cents can only mean unvoiced"),
+    ("melody.hz2cents", "base_frequency", 10.0, "as above"),
+    ("util.intervals_to_samples", "sample_size", 0.1, "labelling metrics sample at 0.1 s unless told otherwise"),
+]
+
+
+def rule_helperdefaults(rule):
+    def run(ctx):
+        for q, p, want, why in HELPER_DEFAULTS:
+            f = ctx.program.func(q, rule)
+            need(p in f.all_params, rule, "%s has no parameter %s" % (q, p))
+            okd, dv = f.default_value(p)
+            good = okd and dv == want and type(dv) is type(want)
+            yield ob(rule, f, "%s:%s" % (q, p), good, ("%s defaults to %r (%s)" % (p, want, why)) if good else "%s defaults to %s, not %r: %s" % (p, repr(dv) if okd else "no literal", want, why))
+
+    return run
+
+
+# ------------------------------------------------------------------ NARROWDTYPE
+NARROW = {"int8", "int16", "int32", "uint8", "uint16", "uint32", "float16", "float32", "half", "single", "short", "intc", "byte"}
+NARROW_REVIEWED = {
+    ("hierarchy", "uint8"): "level indices of a hierarchy (documented small)",
+    ("segment", "int32"): "marginals of the contingency table in the expected-MI sum (sklearn's own code)",
+    ("util", "float32"): "sample index grid of intervals_to_samples (as published)",
+}
+
+
+def rule_narrowdtype(rule, files):
+    def run(ctx):
+        n = 0
+        for mname in sorted(ctx.program.modules):
+            mod = ctx.program.modules[mname]
+            if mod.path.split("mir_eval/")[-1] not in files:
+                continue
+            for node in ast.walk(mod.tree):
+                names = []
+                if isinstance(node, ast.keyword) and node.arg == "dtype":
+                    names.append(node.value)
+                elif isinstance(node, ast.Call) and isinstance(node.func, ast.Attribute) and node.func.attr == "astype" and node.args:
+                    names.append(node.args[0])
+                for v in names:
+                    txt = ast.unparse(v).strip("\"'").split(".")[-1]
+                    if txt in NARROW:
+                        n += 1
+                        ok = (mname, txt) in NARROW_REVIEWED
+                        yield ob(rule, "mir_eval/%s.py:%d" % (mname, getattr(v, "lineno", 1)), "%s:dtype=%s@%d" % (mname, txt, n), ok, ("reviewed narrow type: %s" % NARROW_REVIEWED[(mname, txt)]) if ok else "a count / score array is given the narrow type %s: values beyond its range wrap around silently" % txt)
+        need(n >= 1, rule, "no narrow dtype site found (the reviewed ones vanished)")
+
+    return run
